@@ -135,6 +135,10 @@ def oracle_rows(c, res):
             if l["model"] not in rows[k][1]:
                 viol.append("model missing")
                 break
+            ptxt = "" if l["params"] is None else " ".join(str(float(t)) if kk == "num" else t for kk, t in l["params"])
+            if not rows[k][1].rstrip().endswith((l["model"] + "  " + ptxt).rstrip()):
+                viol.append("model parameters not shown as stored")
+                break
     return viol
 
 
